@@ -32,6 +32,10 @@ type Options struct {
 	Span    int     `json:"span"`   // <0 default, else cfg.OrderSpanBy
 	Attrs16 int     `json:"attrs16"`
 	Attrs32 int     `json:"attrs32"`
+	// Init: With{Uint8,16,32,64}InitDictIndex ("" = not given); InitAfter places
+	// it after the limit option instead of before. The limit must not depend on it.
+	Init      string `json:"init,omitempty"`
+	InitAfter bool   `json:"init_after,omitempty"`
 }
 
 func DefaultOptions() Options { return Options{Reset: -1, Zstd: -1, Span: -1, Attrs16: -1, Attrs32: -1} }
@@ -56,6 +60,13 @@ func (o Options) String() string {
 	if o.Attrs32 >= 0 {
 		p = append(p, fmt.Sprintf("attrs32=%d", o.Attrs32))
 	}
+	if o.Init != "" {
+		if o.InitAfter {
+			p = append(p, "then-init="+o.Init)
+		} else {
+			p = append(p, "init-first="+o.Init)
+		}
+	}
 	if len(p) == 0 {
 		return "default"
 	}
@@ -79,8 +90,25 @@ func (o Options) Limit() uint64 {
 	return math.MaxUint16
 }
 
+func (o Options) initOption() []cfg.Option {
+	switch o.Init {
+	case "u8":
+		return []cfg.Option{cfg.WithUint8InitDictIndex()}
+	case "u16":
+		return []cfg.Option{cfg.WithUint16InitDictIndex()}
+	case "u32":
+		return []cfg.Option{cfg.WithUint32LinitDictIndex()}
+	case "u64":
+		return []cfg.Option{cfg.WithUint64InitDictIndex()}
+	}
+	return nil
+}
+
 func (o Options) build(extra ...cfg.Option) []cfg.Option {
 	var out []cfg.Option
+	if !o.InitAfter {
+		out = append(out, o.initOption()...)
+	}
 	switch o.Dict {
 	case "none":
 		out = append(out, cfg.WithNoDictionary())
@@ -92,6 +120,9 @@ func (o Options) build(extra ...cfg.Option) []cfg.Option {
 		out = append(out, cfg.WithUint32LimitDictIndex())
 	case "u64":
 		out = append(out, cfg.WithUint64LimitDictIndex())
+	}
+	if o.InitAfter {
+		out = append(out, o.initOption()...)
 	}
 	if o.Reset >= 0 {
 		out = append(out, cfg.WithDictResetThreshold(o.Reset))
